@@ -96,7 +96,13 @@ func localityDiff(old, nw map[string]string, adds []string) string {
 	return strings.Join(ds, "; ")
 }
 
+// corpusC20Hook runs the same oracle over the repository's fixtures (set in the verif build).
+var corpusC20Hook func(c *fw.Ctx)
+
 func runC20(c *fw.Ctx) {
+	if corpusC20Hook != nil {
+		corpusC20Hook(c)
+	}
 	seen := map[string]bool{}
 	fr := freshDecls()
 	docSets(!c.Quick(), func(name string, blocks []doc.Block) {
